@@ -15,7 +15,7 @@
 From Coq Require Import List Arith NArith Bool.
 Import ListNotations.
 Require Import Aiuti.FLock Aiuti.FLockInv Aiuti.FLockSpec Aiuti.FLockTL Aiuti.FLockFD Aiuti.FLockMutex
-               Aiuti.FLockExec Aiuti.FLockAcq Aiuti.FLockRel Aiuti.FLockTerm Aiuti.FLockSeq.
+               Aiuti.FLockExec Aiuti.FLockAcq Aiuti.FLockRel Aiuti.FLockTerm Aiuti.FLockSeq Aiuti.FLockMon12.
 Require Aiuti.Case_C12.
 
 (* A failing acquire — False, TimeoutError or a re-raised OSError — under EVERY fault
@@ -178,6 +178,22 @@ Theorem only_outermost_release_frees :
     Rq reent dflt s1 (Some (o, t, pred d)) /\ is_locked s1 o = true.
 Proof. exact only_outermost_release_frees_lemma. Qed.
 Print Assumptions only_outermost_release_frees.
+
+(* The trace monitor used on implementation traces (Case_C12.ok: results, is_locked,
+   descriptor count, elapsed time and the "who could acquire now" probes judged against the
+   abstract spec after every call) accepts the model's own trace for EVERY contract-
+   respecting sequence without scripted faults, any number of threads and objects: where the
+   implementation's observations equal the model's, the monitor cannot raise a false alarm.
+   (FUEL = 600 is the fuel of the correspondence runs; call_fuel_ok bounds each timed
+   acquire's polling, length ops + 5 <= FUEL the nesting depth.) *)
+Theorem monitor_complete :
+  forall nT cfg ops,
+    ok_calls (Case_C12.cfg_reent cfg) (Case_C12.cfg_dflt cfg) None ops = true ->
+    (forall tc, In tc ops -> call_fuel_ok (Case_C12.cfg_dflt cfg) Case_C12.FUEL (snd tc)) ->
+    length ops + 5 <= Case_C12.FUEL ->
+    Case_C12.ok (Case_C12.CSeq nT cfg [] ops (Case_C12.model_trace (Case_C12.CSeq nT cfg [] ops [] 0)) 0) = true.
+Proof. exact monitor_complete_C12_lemma. Qed.
+Print Assumptions monitor_complete.
 
 (* Non-vacuity of the sequential theorems: an 8-call sequence with nesting, a refused
    acquire by the other thread, a polling with-statement that times out, an inner and
